@@ -320,6 +320,10 @@ func c12retry(c *an.Ctx) {
 	var ids []ssa.Value
 	for _, gc := range an.CallsTo(fn, newGUID) {
 		s, _ := an.ErrEdges(gc.Value())
+		if len(s) == 0 {
+			// `id, err := NewGUID(); for err != nil { …; id, err = NewGUID() }`: the test is on the merge of both calls' errors
+			s, _ = an.ErrEdgesPhi(gc.Value())
+		}
 		succ = append(succ, s...)
 		ids = append(ids, an.ResultN(gc.Value(), 0)...)
 	}
@@ -334,7 +338,7 @@ func c12retry(c *an.Ctx) {
 	good := true
 	for _, r := range an.Returns(fn) {
 		call := an.CallResultOf(an.Resolve(r.Results[0]), hex)
-		if call == nil || !valueIn(call.Call.Args[0], ids) {
+		if call == nil || !an.OriginsAll(call.Call.Args[0], func(o ssa.Value) bool { return valueIn(o, ids) }) {
 			good = false
 		}
 	}
